@@ -2,14 +2,14 @@
 # usage: tools/run_seed.sh <seed-id> <property> [tier]
 # applies seeded/<seed-id>/patch.diff to a scratch worktree of /repo HEAD and runs the check against it
 ID="$1"; PROP="$2"; TIER="${3:-quick}"
-WT=/tmp/seedrun-$ID
+WT=/tmp/seedrun-$ID-$$
 git -C /repo worktree remove --force $WT 2>/dev/null
 git -C /repo worktree add --detach $WT HEAD >/dev/null 2>&1 || exit 2
 (cd $WT && git apply /verif/seeded/$ID/patch.diff) || { echo "patch does not apply"; git -C /repo worktree remove --force $WT; exit 2; }
-cd /verif && PENNE_REPO=$WT bin/check $PROP --tier $TIER > /verif/work/seedrun-$ID.log 2>&1
+cd /verif && PENNE_REPO=$WT bin/check $PROP --tier $TIER > /verif/work/seedrun-$ID-$$.log 2>&1
 RC=$?
-echo "seed $ID on $PROP ($TIER): exit $RC, $(grep -c '^VIOLATION' /verif/work/seedrun-$ID.log) VIOLATION lines"
-grep -E "^\[(replay|trace|evidence)" /verif/work/seedrun-$ID.log | tail -4
+echo "seed $ID on $PROP ($TIER): exit $RC, $(grep -c '^VIOLATION' /verif/work/seedrun-$ID-$$.log) VIOLATION lines"
+grep -E "^\[(replay|trace|evidence)" /verif/work/seedrun-$ID-$$.log | tail -4
 H=$(python3 -c "import hashlib,os;print(hashlib.sha1(os.path.realpath('$WT').encode()).hexdigest()[:10])")
 rm -rf /tmp/pvh-$H
 git -C /repo worktree remove --force $WT
